@@ -22,13 +22,17 @@
                     early exit or exhaustion — holds the answer Python list semantics gives on
                     `src` (this is C12's cache/history independence in its strongest form).
 
-  ASSUMPTION of every statement below: the underlying generator (`self._iter()`) never raises anything
-  but StopIteration — `next(gen)` on line 138 either yields the next value of the finite list `src`
-  or ends.  A generator that raises (e.g. a set holding a naive and an aware date) is outside the
-  model; there the real cached object differs from the uncached one afterwards (it ends up as a
-  complete EMPTY sequence, and the second operation raises the TypeError at `i < self._len` that
-  `safety` excludes under the assumption): known finding D-C11-genraise, checked by the oracle case
-  `generator_raises`.
+  ASSUMPTION of every positive statement below: the underlying generator (`self._iter()`) never raises
+  anything but StopIteration.  It is explicit in the model: `Shared.raises` says after how many values
+  the generator raises which exception, line 138 has three outcomes (`Cache.step138`: next value /
+  StopIteration with `_len` published / an exception E that escapes through the `finally`), and the
+  invariant contains `raises = none` (`SInv.noraise`; `init` builds such a state).  With
+  `raises = some (k, E)` the property is FALSE for the code, and the model proves it (examples at
+  the end, `genraise_*`): after E escaped once, the cached object takes the dead generator's
+  StopIteration for the end of the recurrence without `_len` — the next listing raises TypeError at
+  `i < self._len`, and from then on the object is a complete sequence of what happened to be cached
+  with `count()` None, while the uncached object keeps raising E.  Known finding D-C11-genraise; the
+  oracle accepts it only where the implementation does exactly what the model predicts (`query.runx`).
 
   On the tree before fix a459cd4 (no `finally: release()`), the same model has a reachable
   deadlock; the harness keeps replaying that schedule on the implementation (c11.py sample).
@@ -297,5 +301,24 @@ example : (let ns := Nested.run nestedShared.1 nestedShared.2 (List.replicate 40
 example : (let ns := Nested.run nestedOwn.1 nestedOwn.2 (List.replicate 150 0)
            (Nested.finished ns (1, 0), ns.sets.map (fun S => S.st.sh.cache), Nested.deadlocked ns nestedOwn.2))
           = (true, [[0, 10, 20]], false) := by decide +kernel
+
+/-! ### the underlying generator raises: cached ≠ uncached (D-C11-genraise), proved on the model -/
+
+-- the witness shape (the generator raises before its first value): list, list, list, count(), in
+example : runRaising [] 0 .TypeError (initRaising [] 0 .TypeError) [.iterAll, .iterAll, .iterAll, .count, .contains 5]
+          = [.err .TypeError, .err .TypeError, .list [], .val none, .bool false] := by decide +kernel
+example : [Query.iterAll, .iterAll, .iterAll, .count, .contains 5].map (fun q => genRaising q [] 0 .TypeError)
+          = [.err .TypeError, .err .TypeError, .err .TypeError, .err .TypeError, .err .TypeError] := by decide
+
+/-- **genraise_cached_differs.** For a generator that raises E after 11 of 12 values: an index query is answered from
+    the first batch; the listing raises E; the NEXT listing raises TypeError (`i < self._len` with `_len` None) although
+    the uncached rule raises E again; then the object pretends to be the 11 cached values with `count()` None. -/
+theorem genraise_cached_differs :
+    runRaising [0, 1, 2, 3, 4, 5, 6, 7, 8, 9, 10, 11] 11 .ZeroDivisionError
+        (initRaising [0, 1, 2, 3, 4, 5, 6, 7, 8, 9, 10, 11] 11 .ZeroDivisionError) [.index 3, .iterAll, .iterAll, .count, .iterAll]
+      = [.val (some 3), .err .ZeroDivisionError, .err .TypeError, .val none, .list [0, 1, 2, 3, 4, 5, 6, 7, 8, 9, 10]] ∧
+    [Query.index 3, .iterAll, .iterAll, .count, .iterAll].map (fun q => genRaising q [0, 1, 2, 3, 4, 5, 6, 7, 8, 9, 10, 11] 11 .ZeroDivisionError)
+      = [.val (some 3), .err .ZeroDivisionError, .err .ZeroDivisionError, .err .ZeroDivisionError, .err .ZeroDivisionError] := by
+  decide +kernel
 
 end C11
